@@ -261,7 +261,7 @@ def run_job(job):
         return acc.result()
     if part == "sign":
         C = smallcurve.curve(cv)
-        msgs = [b"", b"\x00", b"m", b"\xff" * 32]
+        msgs = [b"", b"\x00", b"m", b"\xff" * 32, b"deadbeefcafebabe0123456789abcdef", b"0a"]
         auxes = ["00" * 32, "ff" * 32, "00" * 31 + "01", None]
         for d in range(0, C.n + 2):
             for m in msgs:
